@@ -84,7 +84,30 @@ def negatives_join(h):
     return names
 
 
-def both(v, pid, b, d, table, rep, focus, runs, enum=None, hot=0):
+def groups(d):
+    """C12: the complete small space of groupings (composites nested in a startup profile, token-less items
+    trailing / leading / inside) enumerated by TLC on StartupGroups.tla, with the design-level statement
+    HoldHonoured; the negative control (a group is over with its last token) MUST fail.  Returns the TLC result
+    and the path of the exported profiles (one {desc, tokens} per line)."""
+    r = vlib.tlc("StartupGroups", "StartupGroups_exh.cfg", workers=2, timeout=600, heap="2g", deadlock=False)
+    vlib.tlc_must_pass(r, "StartupGroups_exh.cfg")
+    neg = vlib.tlc("StartupGroups", "StartupGroups_neg_droptail.cfg", workers=1, timeout=600, heap="2g", deadlock=False)
+    vlib.tlc_must_fail(neg, "StartupGroups_neg_droptail")
+    seen, rows = set(), []
+    for ln in r.out.splitlines():
+        if ln.startswith('<<"VERIF", "'):
+            txt = json.loads(ln[len('<<"VERIF", '):-2])
+            if txt not in seen:
+                seen.add(txt)
+                rows.append(json.loads(txt))
+    if len(rows) != r.distinct or not rows:
+        raise vlib.MachineryError("StartupGroups exported %d profiles for %d states" % (len(rows), r.distinct))
+    path = os.path.join(d, "startup_groups.ndjson")
+    vlib.write_ndjson(path, rows)
+    return r, path
+
+
+def both(v, pid, b, d, table, rep, focus, runs, enum=None, hot=0, groups_path=None):
     """M2 cases and M1 random traces: drivers one after the other (they time real runs), TLC validations and the
     binding self-test side by side."""
     keys = sorted(table)
@@ -103,6 +126,14 @@ def both(v, pid, b, d, table, rep, focus, runs, enum=None, hot=0):
         for r in rows_e:
             r["run"] += 1000000
         rows_t = rows_t + rows_e
+    if groups_path:
+        # TLC's enumeration of nested startup profiles (StartupGroups.tla), rendered and run by the driver
+        p4 = os.path.join(d, "%s_groups_out.ndjson" % pid)
+        vlib.run_driver(b, ["pool", "-out", p4, "-groups", groups_path], timeout=3000)
+        rows_g = vlib.read_ndjson(p4)
+        for r in rows_g:
+            r["run"] += 3000000
+        rows_t = rows_t + rows_g
     tag = pid.lower()
     with concurrent.futures.ThreadPoolExecutor(max_workers=3) as ex:
         f1 = ex.submit(validate_parallel, v, pid, rows_c, d, tag + "_cases")
@@ -286,5 +317,9 @@ def replay(path, v, pid):
     rows = obj["events"]
     if rows and rows[0]["ev"] != "conf":
         rows = [obj["conf"]] + rows
+    for r in rows:      # replay files written before the second pool was recorded
+        if r["ev"] == "end":
+            r.setdefault("twin_ids", [])
+            r.setdefault("twin_shots", 0)
     validate(v, pid, rows, d, "replay")
     return None
